@@ -52,12 +52,26 @@ def cases(ctx, budget):
             bad = rng.choice(["\t", "\x01", "\x1f", "\\x", "\\u12", "\\uD800", "\\uDC00\\uD800", "\\" + other, "\n"])
             lit = q + pre + bad + rng.choice(["", "z", other]) + q
             text = rng.choice(["$[%s]", "$[?@==%s]", "$.a[%s]", "$[?@.b[%s]]", "$[1,%s]"]) % lit
+        elif r < 0.27:
+            # errors found AFTER lexing, by the parser and the selector constructors (index or slice bound outside the exact range, leading
+            # zeros, -0, unknown function, ill-typed filter): whitespace goes between tokens only so that the tokens stay intact
+            big = str(rng.choice([2**53, -2**53, 2**53 + 7, 10**20, -10**19]))
+            ok = lambda: str(rng.randint(-3, 9))
+            pieces = rng.choice([
+                ["$", "[", big, "]"], ["$", "[", ok(), ":", big, "]"], ["$", "[", big, ":", ok(), "]"], ["$", "[", ok(), ":", ok(), ":", big, "]"],
+                ["$", ".a", "[", ok(), ",", ":", big, "]"], ["$", "[", "'a'", ",", ok(), ":", big, ":", ok(), "]"], ["$", "[", ok(), ":", "01", "]"],
+                ["$", "[", "-0", ":", "]"], ["$", "..", "[", ":", ":", big, "]"], ["$", "[", "?", "@", "[", ok(), ":", big, "]", "]"],
+                ["$", "[", "?", "nope", "(", "@", ")", "]"], ["$", "[", "?", "length", "(", "@", ".*", ")", "==", "1", "]"], ["$", "[", "?", "@", ".*", "==", "1", "]"],
+                ["$", "[", "?", "count", "(", "1", ")", ">", "0", "]"], ["$", "[", "?", "@", ".a", "]", ".b", "[", ok(), ":", big, "]"],
+            ])
+            ws = lambda: rng.choice(["", "", " ", "\n", "\n ", "\r\n", "\n\n  ", "\t"])
+            text = pieces[0] + "".join((ws() if p not in ("(",) and not p.startswith(".") else "") + p for p in pieces[1:])
         elif r < 0.7:
             base = gen.render_query(rng, gen.rand_query(rng, names=gen.SIMPLE_NAMES, depth=rng.randint(1, 3)))
-            text = harness.mutate_text(rng, base)
+            text = harness.mutate_text(rng, base) if rng.random() < 0.6 else harness.mutate_struct(rng, base)
         else:
             text = "$" + "".join(rng.choice(harness.ALPH) for _ in range(rng.randint(0, 12)))
-        if rng.random() < 0.8: text = sprinkle(rng, text)
+        if rng.random() < 0.8 and not (0.15 <= r < 0.27): text = sprinkle(rng, text)
         try:
             env.compile(text)
             out = [0]
